@@ -975,7 +975,7 @@ class MatlabWrapper(CheckMixin, FormatMixin):
                 method_text += textwrap.indent(textwrap.dedent('''\
                       % {name_caps} usage: {name_upper_case}({args}) : returns {return_type}
                       % Doxygen can be found at https://gtsam.org/doxygen/
-                      {check_statement}{spacing}varargout{{1}} = {wrapper}({id}, varargin{{:}});{end_statement}
+                      {check_statement}{spacing}{varargout}{wrapper}({id}, varargin{{:}});{end_statement}
                       ''').format(
                     name=''.join(format_name),
                     name_caps=static_overload.name.upper(),
@@ -990,6 +990,11 @@ class MatlabWrapper(CheckMixin, FormatMixin):
                         static_overload.args),
                     check_statement=check_statement,
                     spacing='' if check_statement == '' else '  ',
+                    varargout=self._format_varargout(
+                        static_overload.return_type,
+                        self._format_return_type(static_overload.return_type,
+                                                 include_namespace=True,
+                                                 separator=".")),
                     wrapper=self._wrapper_name(),
                     id=self._update_wrapper_id(
                         (namespace_name, instantiated_class,
